@@ -195,6 +195,14 @@ def run_property(prop, tier='quick', repo=REPO):
     new_violations = []
     known_hits = []
     for rec in results:
+        seen_keys = set()
+        uniq = []
+        for v in rec.violations:
+            if v['key'] in seen_keys:
+                continue
+            seen_keys.add(v['key'])
+            uniq.append(v)
+        rec.violations = uniq
         for v in rec.violations:
             if v['key'] in open_keys:
                 known_hits.append((v, open_keys[v['key']]))
